@@ -141,24 +141,33 @@ Print Assumptions resolve_pattern_id.
    for the method and matches; Vars is what that pattern captured, the catch-all under its
    own name; the handler and the middlewares after next are told the registered pattern,
    and (URL path not empty) so was every middleware that asked before next — pattern and
-   Vars; otherwise 404 with the negotiated encoder, or 405 when only another method matches *)
+   Vars; otherwise 404 with the negotiated encoder, or 405 when only another method matches.
+   goa's SmartRedirectSlashes, when mounted, is a transparent layer (every recording
+   middleware runs, same dispatch, same pattern and Vars) except for the requests it
+   redirects: decoded path longer than "/", no route of the method matches it, one matches
+   it with the trailing slash toggled — then 301 to that path and nothing after it runs *)
 Theorem serve_spec pick m me wire pre ar ap : sound pick -> reachable m ->
   match set_path wire with
   | None => serve pick m me wire pre ar ap = None
   | Some (path, raw) =>
     let segs := path_segs (route_path path raw) in
-    let n := count_true (firstn (length (mws m)) pre) in
+    let n := asking (mws m) pre in
     exists o, serve pick m me wire pre ar ap = Some o /\
       match o_out o with
       | Handled h vs hp =>
+        smart_redirects m me path = false /\ o_ran o = rec_ids (mws m) /\
         exists r capt, In r (cands m me segs) /\ r_h r = h /\ captured (r_pat r) wire = Some capt /\
           vs = map (rename (opt_name (catchall_name (r_pat r)))) capt /\
           hp = goa_render (r_pat r) /\ o_post o = goa_render (r_pat r) /\
           (wire <> [] -> o_pre o = repeat (hp, vs) n)
-      | NotFound e => cands m me segs = [] /\ other_method_matches m segs = false /\ e = response_encoder ar ap /\
+      | NotFound e => smart_redirects m me path = false /\ o_ran o = rec_ids (mws m) /\
+          cands m me segs = [] /\ other_method_matches m segs = false /\ e = response_encoder ar ap /\
           (wire <> [] -> o_pre o = repeat ([], []) n /\ o_post o = [])
-      | MethodNotAllowed => cands m me segs = [] /\ other_method_matches m segs = true /\
+      | MethodNotAllowed => smart_redirects m me path = false /\ o_ran o = rec_ids (mws m) /\
+          cands m me segs = [] /\ other_method_matches m segs = true /\
           (wire <> [] -> o_pre o = repeat ([], []) n /\ o_post o = [])
+      | Redirected loc => smart_redirects m me path = true /\ loc = hex_escape_non_ascii (toggle_slash path) /\
+          o_ran o = rec_ids (before_smart (mws m))
       end
   end.
 Proof. intros Hs Hm. exact (Lemmas.serve_spec pick Hs m me wire pre ar ap (Lemmas.reachable_wf m Hm)). Qed.
@@ -169,7 +178,7 @@ Print Assumptions serve_spec.
 Theorem resolve_before_routing_agrees pick m me wire pre ar ap o h vs hp : sound pick -> reachable m ->
   serve pick m me wire pre ar ap = Some o -> o_out o = Handled h vs hp -> wire <> [] ->
   (forall a, In a (o_pre o) -> a = (hp, vs)) /\ o_post o = hp /\
-  length (o_pre o) = count_true (firstn (length (mws m)) pre).
+  length (o_pre o) = asking (mws m) pre /\ o_ran o = rec_ids (mws m).
 Proof. intros Hs Hm. exact (pre_agrees pick m me wire pre ar ap o h vs hp Hs (Lemmas.reachable_wf m Hm)). Qed.
 Print Assumptions resolve_before_routing_agrees.
 
@@ -180,10 +189,11 @@ Theorem dispatch_sound pick m me wire pre ar ap o h vs hp : sound pick -> reacha
 Proof. intros Hs Hm. exact (Lemmas.dispatch_sound pick Hs m me wire pre ar ap o h vs hp (Lemmas.reachable_wf m Hm)). Qed.
 Print Assumptions dispatch_sound.
 
-(* a handler runs iff the matching set is not empty; 404 iff no route of any method
-   matches the path; 405 iff only routes of other methods do *)
+(* (SmartRedirectSlashes not answering) a handler runs iff the matching set is not empty;
+   404 iff no route of any method matches the path; 405 iff only routes of other methods do *)
 Theorem dispatch_404 pick m me wire pre ar ap o path raw : sound pick -> reachable m ->
   serve pick m me wire pre ar ap = Some o -> set_path wire = Some (path, raw) ->
+  smart_redirects m me path = false ->
   let segs := path_segs (route_path path raw) in
   ((exists h vs hp, o_out o = Handled h vs hp) <-> cands m me segs <> []) /\
   (o_out o = NotFound (response_encoder ar ap) <-> cands m me segs = [] /\ other_method_matches m segs = false) /\
@@ -194,6 +204,7 @@ Print Assumptions dispatch_404.
 (* exactly one registered route matches: its handler runs, its pattern is reported *)
 Theorem dispatch_unique pick m me wire pre ar ap o path raw r : sound pick -> reachable m ->
   serve pick m me wire pre ar ap = Some o -> set_path wire = Some (path, raw) ->
+  smart_redirects m me path = false ->
   cands m me (path_segs (route_path path raw)) = [r] ->
   exists vs, o_out o = Handled (r_h r) vs (goa_render (r_pat r)) /\ o_post o = goa_render (r_pat r).
 Proof. intros Hs Hm. exact (Lemmas.dispatch_unique pick Hs m me wire pre ar ap o path raw r (Lemmas.reachable_wf m Hm)). Qed.
@@ -202,14 +213,16 @@ Print Assumptions dispatch_unique.
 (* end to end: the URL built for a registered pattern is never answered 404/405; a
    handler of the same method whose pattern matches runs and is told its own pattern, as
    is every middleware before and after next; when it is the handler of that pattern,
-   Vars maps every wildcard name to `returned` *)
+   Vars maps every wildcard name to `returned`. Hypothesis: SmartRedirectSlashes is not
+   mounted, or no value contains / ; , (see smart_redirect_decoded_refuted) *)
 Theorem built_request_served pick m r ip pre ar ap : sound pick -> reachable m ->
   In r (routes m) -> r_pat r = pat_of ip -> wf_ipat ip = true ->
+  existsb is_smart (mws m) = false \/ forallb neutral (ivals ip) = true ->
   exists o r' vs,
     serve pick m (r_meth r) (build_url ip) pre ar ap = Some o /\
     In r' (routes m) /\ r_meth r' = r_meth r /\ captured (r_pat r') (build_url ip) <> None /\
     o_out o = Handled (r_h r') vs (goa_render (r_pat r')) /\ o_post o = goa_render (r_pat r') /\
-    o_pre o = repeat (goa_render (r_pat r'), vs) (count_true (firstn (length (mws m)) pre)) /\
+    o_pre o = repeat (goa_render (r_pat r'), vs) (asking (mws m) pre) /\ o_ran o = rec_ids (mws m) /\
     (r' = r -> vs = returned ip).
 Proof. intros Hs Hm. exact (Lemmas.built_request_served pick Hs m r ip pre ar ap (Lemmas.reachable_wf m Hm)). Qed.
 Print Assumptions built_request_served.
@@ -267,6 +280,36 @@ Proof.
   exists o. split; [exact E|]. split; [exact H1|]. split; [exact H2|exact H3].
 Qed.
 Print Assumptions resolve_empty_path_refuted.
+
+(* ----------------------------------- http/middleware.SmartRedirectSlashes via Use *)
+
+(* it never answers a request that chi routes on the decoded path (RawPath empty) and that
+   a route of the method matches: pattern, Vars and dispatch are those of serve_spec *)
+Theorem smart_transparent_partial m me wire path : set_path wire = Some (path, []) -> wire <> [] ->
+  cands m me (path_segs (route_path path [])) <> [] -> smart_redirects m me path = false.
+Proof. exact (smart_quiet m me wire path). Qed.
+Print Assumptions smart_transparent_partial.
+
+Theorem smart_not_mounted m me path : existsb is_smart (mws m) = false -> smart_redirects m me path = false.
+Proof. exact (no_smart_quiet m me path). Qed.
+Print Assumptions smart_not_mounted.
+
+(* the finding: it decides on the decoded URL.Path. Use(SmartRedirectSlashes);
+   Handle(GET,"/u/{id}"); the URL built for id = "a/" is /u/a%2F, which that pattern
+   matches (and would return "a/") — the client is sent to /u/a instead, whatever chi's precedence *)
+Theorem smart_redirect_decoded_refuted :
+  exists m ip r, reachable m /\ wf_ipat ip = true /\ routes m = [r] /\ r_pat r = pat_of ip /\
+    captured (r_pat r) (build_url ip) = Some (icaps idv ip) /\
+    forall pick ar ap, sound pick ->
+      exists o loc, serve pick m (r_meth r) (build_url ip) [] ar ap = Some o /\ o_out o = Redirected loc.
+Proof.
+  exists w_mux5, w_ip5, {| r_meth := GET; r_pat := pat_of w_ip5; r_h := 0 |}.
+  destruct (smart_redirect_served first_pick first_pick_sound MEmpty None) as (H1 & H2 & H3 & _).
+  split; [exact w_mux5_reachable|]. split; [exact H1|]. split; [exact H2|]. split; [reflexivity|]. split; [exact H3|].
+  intros pick ar ap Hs. destruct (smart_redirect_served pick Hs ar ap) as (_ & _ & _ & o & E1 & E2).
+  exists o, [x2f; x75; x2f; x61]. split; [exact E1|exact E2].
+Qed.
+Print Assumptions smart_redirect_decoded_refuted.
 
 (* ------------------------------------------------------- the not-found body *)
 
